@@ -545,6 +545,10 @@ fn check_characteristic_common(
         ];
         let axis_pts_names = ["X", "Y", "Z", "4", "5"];
         for (idx, axis_descr) in characteristic.axis_descr().iter().enumerate() {
+            if idx >= axis_refs.len() {
+                // there are more AXIS_DESCR than any CHARACTERISTIC type permits; this was already reported above
+                break;
+            }
             if axis_descr.attribute == AxisDescrAttribute::StdAxis {
                 // an STD_AXIS must be described by the record layout - should this also apply to CURVE_AXIS?
                 if let Some(axis_pts_dim) = axis_refs[idx] {
